@@ -106,9 +106,14 @@ def explore(tier, seed, model_ok=True, focus=False):
     hist = []
     for c in CORPUS:
         tr = se.replay_history(c["cfg"], c["ops"])
-        if not all(o["ok"] for _, o in tr):
-            raise RuntimeError(f"corpus history {c['name']} no longer succeeds on the real contracts: "
-                               f"{[(op, o['msg']) for op, o in tr if not o['ok']]}")
+        bad = [i for i, (_, o) in enumerate(tr) if not o["ok"]]
+        if bad:
+            # a corpus history is made of legitimate operations only: one that is refused is a finding with a replay,
+            # not a reason to stop exploring (the monitors and the model comparison still run on it)
+            i = bad[0]
+            ex.failures.append(dict(key="corpus-history-refused", what=f"corpus history {c['name']}: legitimate operation {tr[i][0]} is refused "
+                                                                        f"({tr[i][1]['msg']})",
+                                    replay=dict(cfg=c["cfg"], ops=[t[0] for t in tr[:i + 1]], seed=c["name"], observed=strip(tr[i][1]))))
         hist.append((c["name"], c["cfg"], tr))
     with concurrent.futures.ProcessPoolExecutor(max_workers=16) as pool:
         for sd, cfg, trace in pool.map(_gen, [(s, nops) for s in seeds], chunksize=4):
@@ -126,7 +131,8 @@ def explore(tier, seed, model_ok=True, focus=False):
                     ex.failures.append(dict(key="failed-tx-changed-state", what=f"{op} failed but storage/balances changed",
                                             replay=dict(cfg=cfg, ops=[t[0] for t in trace[:i + 1]])))
             if o["proxy_left"]:
-                raise RuntimeError(f"harness: pass-through account kept tokens after {op}: {o['proxy_left']}")
+                ex.failures.append(dict(key="pass-through-account-kept-tokens", what=f"after {op} the pass-through account holds {o['proxy_left']}",
+                                        replay=dict(cfg=cfg, ops=[t[0] for t in trace[:i + 1]], seed=sd, observed=strip(o))))
             k = nontrivial(cfg, op, o)
             if k is not None:
                 ex.nontrivial.add(k)
@@ -161,4 +167,6 @@ def replay(data):
     for op, o in trace:
         for key, what in monitor(rp["cfg"], op, o):
             fails.append(dict(key=key, what=what))
+    if data.get("key") == "corpus-history-refused" and trace and not trace[-1][1]["ok"]:
+        fails.append(dict(key="corpus-history-refused", what=f"{trace[-1][0]} is refused ({trace[-1][1]['msg']})"))
     return fails
